@@ -11,14 +11,14 @@ from ..runner import Sub
 
 ID = 'C09'
 TECHNIQUE = 'PBT against reference models (exact rational Menger / L-method residual intervals, reference DFDT loop) + loop guard'
-LEVEL_TEXT = 'Exploration: Arg-opt decided when unique by interval margin; ties only get structural clauses; L-method first-minimum clause also on 105-400 point curves. Finds counter-examples (shrunk to a replay file); never proves absence.'
+LEVEL_TEXT = 'Exploration: Arg-opt decided when unique by interval margin; ties only get structural clauses; L-method exact-minimum clause also on 105-400 point curves. Finds counter-examples (shrunk to a replay file); never proves absence.'
 RULE = ('Cases = (valid curve n >= 3, n >= 5 for the L-method; Fit x Cost x Refinement x limit in [4, n+5]).  '
         'Reference models written from the statement, sharing only uts.gradient.cfd/csd and '
         'uts.thresholding.isodata with the implementation: curvature arg-max over the interior; DFDT '
         'reference refinement loop; Menger = reciprocal circumradius in rational arithmetic, interior '
         'arg-max with zero padding; L-method error of every split 2..n-3 from exact rational residuals '
         '(interval with a stated rounding allowance), returned split must be able to be the minimum and '
-        'must be it when the minimum is unique by the interval margin, and must be the first minimiser of '
+        'must be it when the minimum is unique by the interval margin, and must be a minimiser (exactly) of '
         "the library's own compute_error; lmethod.knee terminates within 2n+16 loop tests for every "
         'refinement and returns an index in [2, n-3].  Non-trivial: the optimum is unique by margin (the '
         'arg-opt is decided) for >= 2 detectors, or the refinement loop ran >= 2 iterations.')
@@ -116,6 +116,32 @@ def lmethod_bounds(x, y, fit, cost):
     return out
 
 
+def isodata_ref(a, eps=1e-6, max_iter=100):
+    """uts.thresholding.isodata, step by step, plus a flag: 'unstable' when a value lies within rounding
+    noise of a threshold it is classified against (or the convergence test is that close to eps), so
+    that another summation order of the class means may send the iteration to another fixed point."""
+    a = np.asarray(a, dtype=float)
+    if a.size == 0:
+        return 0.0, False
+    noise = 64 * EPS * float(np.max(np.abs(a))) if a.size else 0.0
+    t = float(np.mean(a))
+    unstable = False
+    for _ in range(max_iter):
+        if np.any(np.abs(a - t) <= noise):
+            unstable = True
+        lm, rm = a <= t, a > t
+        if not np.any(lm) or not np.any(rm):
+            break
+        new = (float(np.mean(a[lm])) + float(np.mean(a[rm]))) / 2.0
+        if abs(abs(new - t) - eps) <= noise:
+            unstable = True
+        if abs(new - t) < eps:
+            t = new
+            break
+        t = new
+    return float(t), unstable
+
+
 def menger_ref(p, i):
     a, b, c = X.pt(p[i - 1]), X.pt(p[i]), X.pt(p[i + 1])
     cr = abs(X.cross(a, b, c))
@@ -185,7 +211,10 @@ def oracle(case, rec):
         while last < knee and (n - cutoff) > 2 and not tie:
             last = knee
             tail = g[cutoff:]
-            t = thresh.isodata(tail)
+            t, unstable = isodata_ref(tail)
+            if unstable:
+                tie = True
+                break
             diff = np.absolute(tail - t)[1:-1]
             j = int(np.argmin(diff))
             srt = np.sort(diff)
@@ -256,10 +285,12 @@ def oracle(case, rec):
                     cands = [i for i, (lo, hi) in bounds.items() if lo <= best_hi]
                     if len(cands) == 1:
                         decided += 1
+                    # any minimiser of the library's own compute_error is "the" minimiser the statement
+                    # speaks of (which of several exactly tied splits is returned is left open)
                     mn = min(errs.values())
                     first = min(i for i, v in errs.items() if v == mn)
-                    rec.check(k == first, 'lmethod.get_knee:not-the-first-minimum-of-compute_error',
-                              'k=%d first minimum at %d' % (k, first))
+                    rec.check(errs[k] == mn, 'lmethod.get_knee:not-a-minimum-of-compute_error',
+                              'k=%d error %r but split %d has error %r' % (k, errs[k], first, mn))
         Ref = getattr(lm.Refinement, case['ref'])
         kk = rec.call(2 * n + 16, lm.knee, p, Fit, Ref, case['limit'], _site='lmethod.knee')
         if kk is not FAILED and interior('lmethod.knee', kk, 2, n - 3):
@@ -343,7 +374,7 @@ def lmethod_long_cases(draw, tier):
 
 
 def oracle_lmethod_long(case, rec):
-    """get_knee must return the first minimiser of the library's own compute_error over ALL splits
+    """get_knee must return a minimiser (exact comparison) of the library's own compute_error over ALL splits
     2..n-3 (exact comparison; compute_error itself is validated on short curves by `detectors`)."""
     L = lib.lib()
     lm = L.lmethod
@@ -374,7 +405,7 @@ def oracle_lmethod_long(case, rec):
         return
     mn = min(errs)
     first = 2 + errs.index(mn)
-    rec.check(k == first, 'lmethod.get_knee:not-the-first-minimum-of-compute_error',
+    rec.check(errs[k - 2] == mn, 'lmethod.get_knee:not-a-minimum-of-compute_error',
               'returned %d (error %r) but split %d has error %r; n=%d fit=%s cost=%s' % (k, errs[k - 2], first, mn, n, case['fit'], case['cost']))
     rec.nontrivial = sorted(errs)[1] > mn
 
